@@ -49,6 +49,9 @@ func genC03(t *rapid.T) C03Case {
 	} else {
 		lim.maxLeaves, lim.maxBlocks = 300, 12
 	}
+	if bigCase(t) { // hostile claims derived from honest proofs with hundreds of targets
+		lim.maxLeaves, lim.maxBlocks, lim.maxAdd = 700, 8, 300
+	}
 	blocks, f := genStateBlocks(t, lim)
 	c := C03Case{Blocks: blocks, Map: genMapCfg(t, "map"), Part: genMapCfg(t, "part")}
 	c.Part.Full = false
